@@ -690,6 +690,20 @@ fn emit_fn(out: &mut Value, req: &Value, sig: &Signature, block: &Block, impl_hd
         n.log("N11f-slice-wrap-return", sig.ident.span());
     }
     n.mark_loops(&mut b);
+    // closures that survived the normalisation: the verifier accepts them but sees nothing of their results when they are passed
+    // to a std combinator; a failing obligation in such a function is undecided, not a violation (hqprop)
+    {
+        struct CC(usize);
+        impl<'ast> syn::visit::Visit<'ast> for CC {
+            fn visit_expr_closure(&mut self, c: &'ast ExprClosure) {
+                self.0 += 1;
+                syn::visit::visit_expr_closure(self, c);
+            }
+        }
+        let mut cc = CC(0);
+        syn::visit::Visit::visit_block(&mut cc, &b);
+        out["residual_closures"] = json!(cc.0);
+    }
     out["body"] = json!(print_block(&b));
     out["loops"] = json!(n.loops);
     let mut all_applied = extra_applied;
